@@ -5,7 +5,9 @@ package syncdrv
 
 import (
 	"bufio"
+	"bytes"
 	"context"
+	"crypto/ecdsa"
 	"crypto/sha256"
 	"encoding/hex"
 	"encoding/json"
@@ -24,14 +26,18 @@ import (
 	"github.com/nuts-foundation/go-stoabs"
 	"github.com/nuts-foundation/go-stoabs/bbolt"
 	"github.com/nuts-foundation/nuts-node/core"
+	nutsCrypto "github.com/nuts-foundation/nuts-node/crypto"
 	"github.com/nuts-foundation/nuts-node/crypto/hash"
 	"github.com/nuts-foundation/nuts-node/network/dag"
 	"github.com/nuts-foundation/nuts-node/network/dag/tree"
 	"github.com/nuts-foundation/nuts-node/network/transport"
 	"github.com/nuts-foundation/nuts-node/network/transport/grpc"
 	v2 "github.com/nuts-foundation/nuts-node/network/transport/v2"
+	"github.com/nuts-foundation/nuts-node/vdr/resolver"
 	"github.com/sirupsen/logrus"
 	grpcLib "google.golang.org/grpc"
+
+	"google.golang.org/protobuf/proto"
 
 	"verifharness/txforge"
 )
@@ -69,6 +75,7 @@ type script struct {
 	Inject int    `json:"inject,omitempty"`
 	Create int    `json:"create,omitempty"`
 	Fat    bool   `json:"fat,omitempty"` // large payloads so that lists are split into several messages
+	Priv   bool   `json:"priv,omitempty"` // C15: nodes have DIDs, A creates private transactions for {A, B}
 }
 
 type input struct {
@@ -208,7 +215,7 @@ func (c *fakeConn) Send(_ grpc.Protocol, envelope interface{}, _ bool) error {
 }
 func (c *fakeConn) Peer() transport.Peer  { return c.peer }
 func (c *fakeConn) IsConnected() bool     { return c.connected }
-func (c *fakeConn) IsAuthenticated() bool { return c.authed }
+func (c *fakeConn) IsAuthenticated() bool { return c.peer.Authenticated }
 
 type connList struct{ conns []*fakeConn }
 
@@ -296,6 +303,16 @@ type sim struct {
 	seen map[string]map[hash.SHA256Hash]bool
 	// XOR digest -> set name list (for abstraction of digests in the trace)
 	cidAbs map[string]int
+	// C15 monitor
+	parties  map[string]*party           // node name -> identity
+	private  map[hash.SHA256Hash]*privTx // private transactions by ref
+	privNode bool
+}
+
+type privTx struct {
+	c          *ctx
+	plain      map[string]bool // node names on the decrypted list
+	recipients map[string]bool // node names that can decrypt
 }
 
 func kindOf(e *v2.Envelope) (string, int, int, string) {
@@ -350,6 +367,26 @@ func (s *sim) capture(from, to string, e *v2.Envelope) {
 	k, num, tot, cid := kindOf(e)
 	if k == "Diag" {
 		return
+	}
+	if len(s.private) > 0 {
+		raw, _ := proto.Marshal(e)
+		for _, pt := range s.private {
+			if !bytes.Contains(raw, pt.c.payload) {
+				continue
+			}
+			conn := s.nodes[from].conns[to]
+			switch {
+			case k != "Payload":
+				s.viol("C15", "private-payload-in-"+k, fmt.Sprintf("%s -> %s: a %s message carried the payload of private transaction %s", from, to, k, pt.c.name))
+			case !conn.peer.Authenticated:
+				s.viol("C15", "private-payload-to-unauthenticated", fmt.Sprintf("%s -> %s: payload of %s over an unauthenticated connection", from, to, pt.c.name))
+			case !pt.plain[to]:
+				s.viol("C15", "private-payload-to-unlisted", fmt.Sprintf("%s -> %s: payload of %s sent to a peer that is not on the participant list", from, to, pt.c.name))
+			case !pt.recipients[from]:
+				s.viol("C15", "private-payload-from-non-participant", fmt.Sprintf("%s -> %s: payload of %s sent by a node that is not a participant", from, to, pt.c.name))
+			}
+			s.res.Paths["private-payload-sent"]++
+		}
 	}
 	s.seq++
 	m := &inflight{seq: s.seq, from: from, to: to, env: e, kind: k, num: num, tot: tot, cid: cid}
@@ -409,7 +446,11 @@ func (s *sim) capture(from, to string, e *v2.Envelope) {
 }
 
 func newSim(t *testing.T, in input, u *universe, res *result) *sim {
-	s := &sim{t: t, dir: t.TempDir(), u: u, nodes: map[string]*node{}, res: res, seen: map[string]map[hash.SHA256Hash]bool{}, cidAbs: map[string]int{}}
+	return newSimP(t, in, u, res, nil)
+}
+
+func newSimP(t *testing.T, in input, u *universe, res *result, parties map[string]*party) *sim {
+	s := &sim{parties: parties, private: map[hash.SHA256Hash]*privTx{}, t: t, dir: t.TempDir(), u: u, nodes: map[string]*node{}, res: res, seen: map[string]map[hash.SHA256Hash]bool{}, cidAbs: map[string]int{}}
 	for _, name := range in.Nodes {
 		db, err := bbolt.CreateBBoltStore(filepath.Join(s.dir, name+".db"), stoabs.WithNoSync())
 		if err != nil {
@@ -424,7 +465,22 @@ func newSim(t *testing.T, in input, u *universe, res *result) *sim {
 		}
 		cfg := v2.Config{GossipInterval: 3600 * 1000, DiagnosticsInterval: 0, PayloadRetryDelay: time.Hour}
 		n := &node{name: name, db: db, state: st, conns: map[string]*fakeConn{}, list: &connList{}, mgr: &connMgr{}}
-		n.proto = v2.New(cfg, did.DID{}, st, nil, nil, func() transport.Diagnostics { return transport.Diagnostics{} }, db)
+		nodeDID := did.DID{}
+		var res resolver.DIDResolver
+		var dec nutsCrypto.Decrypter
+		if s.parties != nil {
+			pr := map[string]*party{}
+			for _, p := range s.parties {
+				pr[p.did.String()] = p
+			}
+			res = docResolver{pr}
+			if p := s.parties[name]; p != nil {
+				nodeDID = p.did
+				dec = decrypter{keys: map[string]*ecdsa.PrivateKey{p.kid: p.key}}
+				n.did = p.did
+			}
+		}
+		n.proto = v2.New(cfg, nodeDID, st, res, dec, func() transport.Diagnostics { return transport.Diagnostics{} }, db)
 		if err := n.proto.Configure(transport.PeerID(name)); err != nil {
 			t.Fatal(err)
 		}
@@ -447,6 +503,10 @@ func (s *sim) connect(links [][]string) {
 				continue
 			}
 			peer := transport.Peer{ID: transport.PeerID(p), Address: p + ":5555"}
+			if pp := s.parties[p]; pp != nil && len(l) < 3 { // a third element marks an unauthenticated link
+				peer.NodeDID = pp.did
+				peer.Authenticated = true
+			}
 			c := &fakeConn{sim: s, owner: n.name, to: p, peer: peer, connected: true}
 			n.conns[p] = c
 			n.list.conns = append(n.list.conns, c)
@@ -702,6 +762,14 @@ func (s *sim) fairSuffix(maxRounds int) bool {
 		for _, n := range s.order {
 			s.expire(n, "")
 		}
+		if s.parties != nil {
+			for _, n := range s.order {
+				_ = v2.VerifRetryPrivate(s.nodes[n].proto)
+			}
+			if len(s.net) > 0 {
+				continue
+			}
+		}
 		for _, n := range s.order {
 			for _, p := range s.order {
 				if n != p {
@@ -906,7 +974,7 @@ func runOne(t *testing.T, in input, sc script) *result {
 	if rounds == 0 {
 		rounds = 40
 	}
-	if sc.Shape == "" {
+	if sc.Shape == "" && !sc.Priv {
 		u.build(in.Universe, false)
 		s = newSim(t, in, u, res)
 		for _, n := range in.Nodes {
@@ -926,6 +994,58 @@ func runOne(t *testing.T, in input, sc script) *result {
 		s.connect(in.Links)
 		s.safety("initially")
 		s.replay(sc)
+	} else if sc.Priv {
+		parties := map[string]*party{}
+		for _, n := range in.Nodes {
+			if n != "D" { // D has no node DID at all
+				parties[n] = newParty("node" + n)
+			}
+		}
+		s = newSimP(t, in, u, res, parties)
+		root := u.add("r", nil, 0, true, false)
+		prev := root
+		var all []*ctx
+		all = append(all, root)
+		for i := 0; i < 6; i++ {
+			c := u.add(fmt.Sprintf("p%d", i), []string{prev.name}, int(prev.lc)+1, true, false)
+			all = append(all, c)
+			prev = c
+		}
+		for _, n := range in.Nodes {
+			for _, c := range all {
+				if err := s.add(s.nodes[n], c); err != nil {
+					res.Error = err.Error()
+					return res
+				}
+			}
+		}
+		s.connect(in.Links)
+		// A creates private transactions for {A, B} interleaved with public ones
+		var future []*ctx
+		for i := 0; i < 4; i++ {
+			payload := []byte(fmt.Sprintf("CANARY-PRIVATE-%s-%d-%x", sc.ID, i, sha256.Sum256([]byte(sc.ID))))
+			pal := encryptPAL([]*party{parties["A"], parties["B"]}, []*party{parties["A"], parties["B"]})
+			tx := mkTx([]dag.Transaction{prev.tx}, int(prev.lc)+1, pal, payload)
+			c := &ctx{name: fmt.Sprintf("priv%d", i), tx: tx, payload: payload, ok: true, lc: prev.lc + 1, prevs: []string{prev.name}}
+			u.txs[c.name] = c
+			u.byRef[tx.Ref()] = c
+			s.private[tx.Ref()] = &privTx{c: c, plain: map[string]bool{"A": true, "B": true}, recipients: map[string]bool{"A": true, "B": true}}
+			future = append(future, c)
+			prev = c
+			pub := u.add(fmt.Sprintf("q%d", i), []string{prev.name}, int(prev.lc)+1, true, false)
+			future = append(future, pub)
+			prev = pub
+		}
+		s.safety("initially")
+		sc.Create = len(future)
+		s.random(sc, map[string][]*ctx{"A": future}, nil)
+		// whatever was not created during the random phase is created now
+		cur := s.stored(s.nodes["A"])
+		for _, c := range future {
+			if !cur[c.tx.Ref()] {
+				_ = s.add(s.nodes["A"], c)
+			}
+		}
 	} else {
 		init, future, invalid := buildShape(u, sc, in.Nodes)
 		s = newSim(t, in, u, res)
@@ -948,6 +1068,20 @@ func runOne(t *testing.T, in input, sc script) *result {
 			detail = append(detail, fmt.Sprintf("%s has %d", n, len(s.stored(s.nodes[n]))))
 		}
 		s.viol("C07", "no-convergence", fmt.Sprintf("nodes did not converge to the union within %d fair rounds (%s)", rounds, strings.Join(detail, ", ")))
+	}
+	if sc.Priv {
+		for ref, pt := range s.private {
+			_ = ref
+			for _, n := range s.order {
+				present, _ := s.nodes[n].state.IsPayloadPresent(context.Background(), pt.c.tx.PayloadHash())
+				if present && !pt.plain[n] {
+					s.viol("C15", "private-payload-stored-by-outsider", fmt.Sprintf("node %s holds the payload of private transaction %s", n, pt.c.name))
+				}
+				if !present && pt.plain[n] {
+					s.res.Drift = append(s.res.Drift, fmt.Sprintf("participant %s never obtained the payload of %s", n, pt.c.name))
+				}
+			}
+		}
 	}
 	// final: every node's digests are consistent with what it stores
 	for _, n := range s.order {
